@@ -14,7 +14,7 @@ open SaVerif.Txn
 /-! ## a disconnect invalidates the Connection -/
 
 /-- the error is a disconnect: classified so by the dialect, or by a `handle_error` listener -/
-def IsDisc (c : Conn) (k : FKind) : Prop := k = .disc ∨ c.db.listener = .forceDisc
+def IsDisc (c : Conn) (k : FKind) : Prop := k = .disc ∨ (c.db.listener = .forceDisc ∧ k = .err)
 
 /-- **disconnect_invalidates**: for EVERY state holding a DBAPI connection, the handling of
     an error classified as a disconnect returns the disconnect result (DBAPIError with
@@ -165,7 +165,7 @@ theorem non_disconnect_leaves_pool (c : Conn) (q : Sql) (hd : c.hasDbapi = true)
     (c.execute q).1.db.idle = c.db.idle ∧ (c.execute q).1.db.invalTime = c.db.invalTime := by
   rcases execute_ps c q hd hl with h | h
   · exact ⟨by rw [h.hasDbapi]; exact hd, h.rid, h.idle, h.invalTime⟩
-  · rcases hr with hr | hr <;> rw [h] at hr <;> cases hr
+  · rcases h with h | h <;> rcases hr with hr | hr <;> rw [h] at hr <;> cases hr
 
 /-- the handler itself, for every state: not a disconnect ⇒ connection and pool unchanged -/
 theorem plain_error_leaves_pool (c : Conn) (hl : c.db.listener ≠ .forceDisc) :
